@@ -510,7 +510,7 @@ func runC17(c *eng.Ctx) {
 		// root side
 		n := 0
 		for _, fn := range p.FuncsWithPrefix("query/context.") {
-			for _, s := range p.Sites(fn, eng.AnyCallTo("sql/stmt.Query.MarshalJSON")) {
+			for _, s := range p.SitesDirect(fn, eng.AnyCallTo("sql/stmt.Query.MarshalJSON")) {
 				n++
 				c.Check(true, "root-marshals:"+p.FuncKey(fn), s.Instr, fn, "the planned statement is serialised with MarshalJSON", "")
 			}
@@ -544,7 +544,7 @@ func runC17(c *eng.Ctx) {
 		// time/random sources
 		bad := 0
 		for _, fn := range p.FuncsWithPrefix("sql.") {
-			for _, s := range p.Sites(fn, func(p *eng.Prog, in ssa.Instruction) bool {
+			for _, s := range p.SitesDirect(fn, func(p *eng.Prog, in ssa.Instruction) bool {
 				cl, ok := in.(ssa.CallInstruction)
 				if !ok {
 					return false
